@@ -98,7 +98,7 @@ class Canary(object, metaclass=CanaryMeta):
 
     def __call__(self, *a, **k):
         LOG.append(("C", "()"))
-        return SECRET_M
+        return "canary-call-result"          # the invocation itself is what is recorded
 
     __eq__ = _slot("__eq__", lambda s, o: s is o)
     __ne__ = _slot("__ne__", lambda s, o: s is not o)
@@ -210,7 +210,8 @@ EXPR_ORDER = ["x_cur", "x_c", "x_kw_secret", "x_dot_secret", "x_cdot_secret", "x
 EXPR_CANARY = ["x_c", "x_cdot_secret", "x_ccall_secret", "x_map", "x_map2"]
 
 TEXT_ATTACKS = [
-    "call(coalesce, [$c], {})", "call(select, [[1, 2], $c], {})", "call(where, [[1], $c], {})", "call(orderBy, [[2, 1], $c], {})",
+    "call(coalesce, [$c], {})", "call(select, [$c], {}, [1, 2])", "call(where, [$c], {}, [1])", "call(orderBy, [$c], {}, [2, 1])",
+    "call(select, [[1, 2], $c], {})", "[call(coalesce, [$c], {}), $c]", "call(coalesce, [$c], {}).secret",
     "call(switch, [$c], {})", "call(let, [], {x => $c}) -> $x()", "call(call, [coalesce, [$c], {}], {})",
     "$c.secret", "$c.secret()", "$c[secret]", "$c['secret']", "$c?.secret", "$c?.get_secret()", "$c.get_secret()",
     "$c._hidden", "$c.__class__()", "__class__($c)", "$c.__init__()", "$c.__getattribute__(secret)",
@@ -362,9 +363,42 @@ def render(res, depth=0):
         return "<unrenderable %s: %s>" % (type(e).__name__, str(e)[:2000])
 
 
+F20_LABEL = "canary invoked as the VALUE of a lambda parameter that call() was given (Lambda._call)"
+OTHER_LAMBDA_LABEL = "canary invoked as the value of a lambda parameter that did NOT come through call()"
+CALL_ROUTED = set()      # ids of the objects the running case passed through call(name, args, kwargs[, receiver])
+
+
+def install_lambda_tracer():
+    """marks, in LOG, the span in which yaqltypes.Lambda._call runs with a canary as the lambda's VALUE"""
+    if getattr(yaqltypes.Lambda._call, "_c07_traced", False):
+        return
+    orig = yaqltypes.Lambda._call
+
+    def traced(self, value, receiver, context, engine, args, kwargs):
+        if isinstance(value, Canary):
+            LOG.append(("L", "begin-call" if id(value) in CALL_ROUTED else "begin-other"))
+            try:
+                return orig(self, value, receiver, context, engine, args, kwargs)
+            finally:
+                LOG.append(("L", "end"))
+        return orig(self, value, receiver, context, engine, args, kwargs)
+    traced._c07_traced = True
+    yaqltypes.Lambda._call = traced
+
+
 def judge(log, text):
     bad = []
+    spans = []
     for kind, n in log:
+        if kind == "L":
+            if n == "end":
+                spans.pop()
+            else:
+                spans.append(n)
+            continue
+        if kind == "C" and spans:
+            bad.append(F20_LABEL if spans[-1] == "begin-call" else OTHER_LAMBDA_LABEL)
+            continue
         if kind == "A" and n not in ALLOWED_INSTANCE_ATTRS:
             bad.append("attribute %s read on the canary" % n)
         elif kind == "K" and n not in ALLOWED_CLASS_ATTRS:
@@ -387,13 +421,57 @@ def judge(log, text):
     return out
 
 
+CANARY_VARS = {"$" + k for k in ("c", "cl", "cd", "co", "ct", "ck", "ci", "")} | {"$"}
+
+
+def canary_only_inside_call_args(node, inside=False):
+    """every occurrence of a canary variable (or `$`, which is bound to the canary) lies inside the
+    arguments of a call(...) function node"""
+    if isinstance(node, expressions.GetContextValue):
+        path = node.path.value if isinstance(node.path, expressions.Constant) else None
+        return inside or path not in CANARY_VARS
+    kids = []
+    if isinstance(node, expressions.Statement):
+        kids = [(node.expression, inside)]
+    elif isinstance(node, expressions.Function):
+        is_call = node.name == "call" and type(node) is expressions.Function
+        kids = [(a, inside or (is_call and i >= 1)) for i, a in enumerate(node.args)]
+    elif isinstance(node, expressions.MappingRuleExpression):
+        kids = [(node.source, inside), (node.destination, inside)]
+    elif isinstance(node, expressions.Wrap):
+        kids = [(node.expr, inside)]
+    return all(canary_only_inside_call_args(k, i) for k, i in kids)
+
+
 class Sweeper(object):
     def __init__(self):
+        install_lambda_tracer()
         self.engine = yaql.YaqlFactory().create(options={"yaql.limitIterators": 60, "yaql.memoryQuota": 300000})
         self.ctx = yaql.create_context()
         import gen_effects
         _, self.regs = gen_effects.registry()
         self.exprs = expr_candidates()
+        self.trace_call_payload()
+
+    def trace_call_payload(self):
+        """remember which objects the expression routes through call(name, args, kwargs[, receiver]) (wrapper
+        around the payload of this sweeper's own context, nothing in /repo changes)"""
+        from yaql.standard_library import system
+        c = self.ctx
+        while c is not None:
+            for fd in c._functions.get("call", ()):
+                if fd.payload is system.call_func:
+                    orig = fd.payload
+
+                    from yaql.language import utils as yutils
+
+                    def traced(context, engine, name, args, kwargs, receiver=yutils.NO_VALUE, _orig=orig):
+                        for v in list(args) + list(kwargs.values()) + [receiver]:
+                            if isinstance(v, Canary):
+                                CALL_ROUTED.add(id(v))
+                        return _orig(context, engine, name, args, kwargs, receiver)
+                    fd.payload = traced
+            c = c.parent
 
     # ---- acceptance ----------------------------------------------------
     def accepted(self, pd, vals):
@@ -566,7 +644,9 @@ class Sweeper(object):
             st = self.build(case)
         except Exception as e:
             return "unparsable:" + type(e).__name__, []
+        self.last_via_call = bool(canary_only_inside_call_args(st))
         del LOG[:]
+        CALL_ROUTED.clear()
         signal.signal(signal.SIGALRM, _alarm)
         signal.setitimer(signal.ITIMER_REAL, timeout)
         try:
@@ -605,6 +685,8 @@ def _worker(sw, cases, lo, hi, conn, skip):
         conn.send(("s", i))
         try:
             outcome, bad = sw.run_case(cases[i])
+            if bad and getattr(sw, "last_via_call", False):
+                outcome += "|via-call"
         except BaseException as e:       # harness problem: reported, never silently dropped
             outcome, bad = "harness:" + type(e).__name__, []
         conn.send(("r", i, outcome, bad))
@@ -684,6 +766,8 @@ def sweep(run, deep, corpus):
     reported = {}
     for i, c in enumerate(cases):
         outcome, bad = results.get(i, ("missing", []))
+        via_call = outcome.endswith("|via-call")
+        outcome = outcome.replace("|via-call", "")
         ran = outcome == "value" or outcome.startswith("py:") or (outcome.startswith("yaql:"))
         run.case(("sweep", c.get("i"), c.get("form"), tuple(c.get("args", ())), c.get("expr")), nontrivial=ran)
         run.count("sweep:" + (outcome if not outcome.startswith("py:") else "python-exception"))
@@ -696,7 +780,10 @@ def sweep(run, deep, corpus):
         if i % 1511 == 0:
             run.sample({"sweep": sw.describe(c), "outcome": outcome})
         if bad:
-            key = (c.get("i"), bad[0]) if c["k"] == "fd" else (c["k"], bad[0])
+            f20 = bad == [F20_LABEL]
+            if f20:
+                run.count("sweep:F20-class")
+            key = (c.get("i"), bad[0], f20) if c["k"] == "fd" else (c["k"], bad[0], f20)
             if key in reported:
                 reported[key] += 1
                 continue
@@ -712,6 +799,7 @@ def sweep(run, deep, corpus):
                 c = dict(c, fn=sw.regs[c["i"]][1], payload="%s.%s" % (sw.regs[c["i"]][2].payload.__module__,
                                                                       sw.regs[c["i"]][2].payload.__qualname__))
             run.fail("violation", what, {"sweep": c, "expression": sw.describe(c), "observed": {"outcome": outcome, "accesses": bad},
+                                         "route": {"via_call": via_call},
                                          "required": "only the protocol slots listed in the evidence notes may be used on a non-yaqlized object; no secret in any result or message",
                                          "theorems": ["C07_only_gated_payloads_touch_hosts", "C07_not_yaqlized_denied"]})
     if len(run.cov["uncovered"]) > 40:
@@ -750,6 +838,14 @@ def lexer_gate(run):
             run.fail("mismatch", "keyword tokens may start with '__' (lexer.py t_KEYWORD_STRING / utils.KEYWORD_REGEX lost the (?!__) "
                      "guard): %s" % "; ".join(problems), {"names": n, "problems": problems})
             return
+
+
+def in_f20_class(data):
+    """exactly the class of known finding F20: the ONLY observation is the invocation from Lambda._call with, as the
+    lambda's VALUE, an object that the expression passed through call(name, args, kwargs[, receiver])"""
+    if not isinstance(data, dict) or "sweep" not in data or not isinstance(data.get("observed"), dict):
+        return False
+    return data["observed"].get("accesses") == [F20_LABEL]
 
 
 def replay(run, case):
